@@ -222,7 +222,7 @@ Proof. rewrite smear_formula. cbn [seq map iter_add qsum fold_right]. unfold pix
 (* ---------------- superposition ---------------- *)
 (* what is returned does not depend on the frame's prior content ... *)
 Theorem ret_independent_of_data fr d2 path tp fp bp br o :
-  let fr2 := {| T := T fr; F := F fr; df := df fr; dt := dt fr; fmin := fmin fr; data := d2 |} in
+  let fr2 := {| T := T fr; F := F fr; df := df fr; dt := dt fr; fmin := fmin fr; t0 := t0 fr; data := d2 |} in
   match add_signal fr path tp fp bp br o, add_signal fr2 path tp fp bp br o with
   | Ok (_, r1), Ok (_, r2) => r1 = r2
   | Err e1, Err e2 => e1 = e2
